@@ -95,6 +95,10 @@ S4Set ==
                  IFn("lp32", <<Param("s", T16), Param("c", T8), Param("i", TU(32))>>, <<TEither(T8, T16)>>, BlkE(<<>>, ERight(V("s")))),
                  IFn("lpsw", <<Param("s", T16), Param("c", T8), Param("i", TU(4))>>, <<TEither(T16, T8)>>, BlkE(<<>>, ELeft(V("s")))),
                  IFn("lp2", <<Param("s", T16), Param("i", TU(4))>>, <<TEither(T8, T16)>>, BlkE(<<>>, ERight(V("s")))),
+                 IFn("lp0", <<>>, <<TEither(T8, T16)>>, BlkE(<<>>, ERight(Dec(1)))),
+                 IFn("lp1p", <<Param("s", T16)>>, <<TEither(T8, T16)>>, BlkE(<<>>, ERight(V("s")))),
+                 IFn("lp4", <<Param("s", T16), Param("c", T8), Param("i", TU(4)), Param("z", T8)>>, <<TEither(T8, T16)>>, BlkE(<<>>, ERight(V("s")))),
+                 IFn("acc0", <<>>, <<T16>>, BlkE(<<>>, Dec(1))),
                  \* typing is nominal: a counter (argument, element ...) of a type that merely has the LAYOUT of an integer
                  IFn("lpb", <<Param("s", T16), Param("c", T8), Param("i", TBool)>>, <<TEither(T8, T16)>>, BlkE(<<>>, ERight(V("s")))),
                  IFn("lpt", <<Param("s", T16), Param("c", T8), Param("i", TTup(<<TU(4), TU(4)>>))>>, <<TEither(T8, T16)>>, BlkE(<<>>, ERight(V("s")))),
@@ -126,6 +130,10 @@ S4Set ==
         SLet(PId("r"), TEither(T8, T16), ECall(CForWhile("lp"), <<Dec(1), Dec(0), Dec(0)>>)),
         SLet(PId("r"), TEither(T8, T16), ECall(CForWhile("g"), <<Dec(0), Dec(1)>>)),
         SLet(PId("r"), TEither(T8, T16), ECall(CForWhile("lpb"), <<Dec(0), Dec(1)>>)),
+        SLet(PId("r"), TEither(T8, T16), ECall(CForWhile("lp0"), <<Dec(0), Dec(1)>>)),
+        SLet(PId("r"), TEither(T8, T16), ECall(CForWhile("lp1p"), <<Dec(0), Dec(1)>>)),
+        SLet(PId("r"), TEither(T8, T16), ECall(CForWhile("lp4"), <<Dec(0), Dec(1)>>)),
+        l16(ECall(CFold("acc0", 4), <<lst, Dec(0)>>)),
         SLet(PId("r"), TEither(T8, T16), ECall(CForWhile("lpt"), <<Dec(0), Dec(1)>>)),
         SLet(PId("r"), TEither(T8, T16), ECall(CForWhile("lpa"), <<Dec(0), Dec(1)>>)),
         SLet(PId("r"), TEither(T8, T16), ECall(CForWhile("lpe"), <<Dec(0), Dec(1)>>)),
